@@ -712,7 +712,12 @@ func (e *Env) namesReaders(v *spec.Version, ls []*facts.Level) {
 						continue
 					}
 					readers[name] = true
-					if !allowed[name] || fn.Signature.Recv() == nil || !types.Identical(fn.Signature.Recv().Type(), l.Ptr()) {
+					own := func(f *ssa.Function) bool {
+						return allowed[f.Name()] && f.Signature.Recv() != nil && types.Identical(f.Signature.Recv().Type(), l.Ptr())
+					}
+					// (an unexported helper that runs only for the allowed readers reads in their name: what it does with
+					// the set is decided where those readers are analysed, with the helper expanded in place)
+					if !own(fn) && !e.privateTo(fn, own) {
 						c.Fail("names-readers", fmt.Sprintf("%s reads %s.names", fn.String(), l.Spec.Name), e.P.Pos(fa.Pos()), "the set of names seen is observable here: writing X explicitly would no longer be indistinguishable from omitting the metric (v3), or group presence would be decided elsewhere (v2)")
 					}
 				}
